@@ -171,3 +171,67 @@ def check_case(lines, obs):
             if ob != want:
                 return fail(ln, "the items of the file in file order, converted to the declared type", want, ob)
     return None
+
+
+CLSNAME = {"fds": "SimpleFlowDrivenStock", "idsm": "InflowDrivenDSM", "sdsm": "StockDrivenDSM"}
+
+
+def check_defs(lines, obs):
+    """MFADefinition.to_dfs: one table per non-empty kind of definition, one row per definition
+    holding its field values"""
+    dims = {}
+    b = None
+    for ln, ob in zip(lines, obs):
+        t = ln.split(" ")
+        op = t[0]
+        if op == "dim":
+            dims[t[1]] = t[2]
+        elif op == "b_begin":
+            b = {"dims": [], "procs": [], "flows": [], "stocks": [], "params": []}
+        elif op == "b_dims":
+            b["dims"] = [dims[h] for h in t[1:]]
+        elif op == "b_procs":
+            b["procs"] = t[1:]
+        elif op == "b_flow":
+            b["flows"].append(t[1:])
+        elif op == "b_stock":
+            b["stocks"].append(t[1:])
+        elif op == "b_param":
+            b["params"].append((t[1], t[2]))
+        elif op == "b_todfs":
+            letters = [d.split(":")[1] for d in b["dims"]]
+
+            def ls_ok(ls):
+                L = [] if ls == "-" else ls.split(",")
+                return all(len(l) == 1 and l in letters for l in L)
+
+            def show(ls):
+                return "()" if ls == "-" else "+".join(ls.split(","))
+            bad = (any(not ls_ok(f[2]) for f in b["flows"]) or any(not ls_ok(p[1]) for p in b["params"])
+                   or any(not ls_ok(s[2]) or (s[4] != "fds") != (s[5] != "none") or s[6] not in SOLVERS for s in b["stocks"]))
+            if bad:
+                if ob != "err":
+                    return fail(ln, "a definition with undefined letters, a missing or unused lifetime model or an unknown solver is refused", "err", ob)
+                continue
+            tables = []
+            if b["dims"]:
+                rows = []
+                for d in b["dims"]:
+                    _, l, name, ty, _ = d.split(":")
+                    rows.append(f"{name},{l},{'int' if ty == 'i' else 'str'}")
+                tables.append("dimensions: name,letter,dtype | " + " ; ".join(rows))
+            if b["procs"]:
+                tables.append("processes: name | " + " ; ".join(b["procs"]))
+            if b["flows"]:
+                tables.append("flows: dim_letters,from_process_name,to_process_name,name_override | "
+                              + " ; ".join(f"{show(f[2])},{f[0]},{f[1]},{'None' if f[3] == '-' else f[3]}" for f in b["flows"]))
+            if b["stocks"]:
+                tables.append("stocks: dim_letters,name,process_name,time_letter,subclass,lifetime_model_class,solver | "
+                              + " ; ".join(f"{show(s[2])},{s[0]},{'None' if s[1] == '-' else s[1]},{s[3]},{CLSNAME[s[4]]},"
+                                           f"{'None' if s[5] == 'none' else s[5]},{s[6]}" for s in b["stocks"]))
+            if b["params"]:
+                tables.append("parameters: dim_letters,name | " + " ; ".join(f"{show(p[1])},{p[0]}" for p in b["params"]))
+            want = "ok " + " || ".join(tables)
+            if ob != want:
+                return fail(ln, "one table per non-empty kind of definition, one row per definition with its field values", want, ob)
+    return None
